@@ -1,5 +1,6 @@
 SPECIFICATION Spec
 CONSTANTS
+  MaxBurst = 2
   Scale = 60
   Depth = 12
   MaxPerCond = 1
